@@ -310,39 +310,60 @@ def _host_candidates(h, o):
     return out
 
 
-def _resolved_path(path):
-    """the resolved path as bytes: dot segments (however escaped) and empty segments resolved,
-    each segment percent-decoded, the trailing slash kept"""
+_INSEG = "\ue000"  # a '/' that was escaped inside a segment (decoded %2F): not a separator
+
+
+def _enc_seg(b):
+    return b.decode("latin-1").replace("/", _INSEG)
+
+
+def _resolved_paths(path):
+    """the resolved path: dot segments (however escaped) and empty segments resolved, each
+    segment percent-decoded (bytes shown as latin-1 text, a decoded '/' kept apart from the
+    separators), the trailing slash kept.  When the path ends with a dot segment (`/a/b/..`)
+    RFC 3986 resolves it to a directory (`/a/`) while normpath-style resolution gives `/a`:
+    both are accepted (the reading that demands less)."""
     segs, trailing = cc.resolve_segments(path)
     if not segs:
-        return b"/" if path else b""
-    return b"/" + b"/".join(segs) + (b"/" if trailing else b"")
+        return ["/" if path else ""]
+    body = "/" + "/".join(_enc_seg(x) for x in segs)
+    last = path.rsplit("/", 1)[-1].replace("%2E", ".").replace("%2e", ".")
+    if last in (".", ".."):
+        return [body, body + "/"]
+    return [body + ("/" if trailing else "")]
 
 
-_AMP_CUT = _re.compile(rb"(?:\.amp(?=\.html$)|\.amp/?$|(?<=/)amp/?$)", _re.I)
+def _enc_path(path):
+    return "/".join(_enc_seg(_pct(x)) for x in path.split("/"))
+
+
+_AMP_CUT = _re.compile(r"(?:\.amp(?=\.html$)|\.amp/?$|(?<=/)amp/?$)", _re.I)
 
 
 def _path_candidates(R, o):
+    """everything the Reading allows: R minus at most an AMP marker, an index page, the root
+    slash, trailing slashes — the cuts in any order (closure)"""
     import os.path
 
     S = {R}
-    if o["normalize_amp"]:
-        for x in list(S):
-            m = _AMP_CUT.search(x)
-            if m:
-                S.add(x[: m.start()] + x[m.end():])
-    if o["strip_index"]:
-        for x in list(S):
-            head, sep, last = x.rpartition(b"/")
-            root = os.path.splitext(last)[0]
-            if root in (b"index", b"default"):
-                S.add(head)
-    for x in list(S):
-        if x == b"/":
-            S.add(b"")
-    if o["strip_trailing_slash"]:
-        for x in list(S):
-            S.add(x.rstrip(b"/"))
+    for _ in range(4):
+        T = set(S)
+        for x in S:
+            if o["normalize_amp"]:
+                m = _AMP_CUT.search(x)
+                if m:
+                    T.add(x[: m.start()] + x[m.end():])
+            if o["strip_index"]:
+                head, sep, last = x.rpartition("/")
+                if os.path.splitext(last)[0] in ("index", "default"):
+                    T.add(head)
+            if x == "/":
+                T.add("")
+            if o["strip_trailing_slash"]:
+                T.add(x.rstrip("/"))
+        if T == S:
+            break
+        S = T
     return S
 
 
@@ -418,17 +439,19 @@ def oracle(case):
                     tag, out_host, in_host, sorted(cands)[:6])
     # ---- path ----
     if r.path == "" or r.path.startswith("/"):
-        R = _resolved_path(r.path)
-        got = _pct(out_t.path)
-        if got not in _path_candidates(R, o):
+        Rs = _resolved_paths(r.path)
+        R = Rs[-1]
+        got = _enc_path(out_t.path)
+        if not any(got in _path_candidates(x, o) for x in Rs):
             return "%s: path %r is not the resolved input path %r minus at most an AMP marker, an index page, a trailing slash" % (
                 tag, out_t.path, R)
     # ---- query ----
     q = r.query
     if o["fix_common_mistakes"] and q:
         q = _AMP_SEP.sub("&", q)
-    ins = [(_dec_item(it), it) for it in _items(q)] if q else []
-    outs = [_dec_item(it) for it in _items(out_t.query)] if out_t.query else []
+    # an empty item (between two '&', or a lone '?') carries nothing: ignored on both sides
+    ins = [(_dec_item(it), it) for it in _items(q) if it != ("", None)] if q else []
+    outs = [_dec_item(it) for it in _items(out_t.query) if it != ("", None)] if out_t.query else []
     host_for_filter = in_host
 
     def droppable(raw):
@@ -513,7 +536,7 @@ def classify(case):
         labs.append("port:default" if p["port"] in (80, 443) else "port:other")
     if p["username"] or p["password"]:
         labs.append("userinfo")
-    if _AMP_CUT.search(p["path"].encode("utf-8", "replace")):
+    if _AMP_CUT.search(p["path"]):
         labs.append("path:amp-marker")
     last = p["path"].rsplit("/", 1)[-1]
     if last.split(".")[0] in ("index", "default"):
